@@ -50,3 +50,14 @@ Definition guard_ok (c p g : string) : bool :=
 Definition all_setters_classified_and_guarded : bool :=
   forallb (fun r => guard_ok (fst (fst r)) (snd (fst r)) (snd r)) gen_guards
   && Nat.eqb (length gen_guards) (length setter_table).
+
+(* constructors establish size parameters only through the guarded property setters *)
+Definition ctor_sets (c : string) (props : list string) : bool :=
+  match find (fun r => String.eqb (fst (fst (fst r))) c && String.eqb (snd (fst r)) "__init__") gen_effects with
+  | Some r => forallb (fun p => existsb (String.eqb ("p:" ++ p)) (snd r)) props
+  | None => false
+  end.
+Definition constructors_use_guarded_setters : bool :=
+  ctor_sets "Circle" ["radius"] && ctor_sets "Sphere" ["radius"] && ctor_sets "Ellipse" ["a"; "b"]
+  && ctor_sets "Ellipsoid" ["a"; "b"; "c"] && ctor_sets "ConvexSpheropolygon" ["radius"]
+  && ctor_sets "ConvexSpheropolyhedron" ["radius"].
